@@ -50,3 +50,28 @@ Proof.
   rewrite N.eqb_refl in H. cbn in H. apply N.eqb_eq in H. subst k'.
   rewrite (nthN_inj (c_main c) ND i j _ Hi Hj) in Hs. rewrite Hs in Hs'. inversion Hs'. reflexivity.
 Qed.
+
+(** the same, state by state: the within-word automata on the transitions that leave one state
+    under one level are one automaton *)
+Definition subs_local (c : cdfa) : bool :=
+  let inputs := d_inputs (c_main c) in
+  forallb (fun srow : N * list (N * N) =>
+             forallb (fun it : N * N =>
+                        forallb (fun ju : N * N =>
+                                   match nthN inputs (fst it), nthN inputs (fst ju) with
+                                   | Some (ISub k l), Some (ISub k' l') => negb (N.eqb l l') || N.eqb k k'
+                                   | _, _ => true
+                                   end) (snd srow)) (snd srow)) (d_trans (c_main c)).
+
+Lemma subs_local_sound c : NoDup (d_inputs (c_main c)) -> subs_local c = true -> subs_deterministic c.
+Proof.
+  intros ND H s k k' l t t' [i [Hs Hi]] [j [Hs' Hj]] _.
+  pose proof Hs as Hs0. pose proof Hs' as Hs0'.
+  unfold Dfa.step in Hs, Hs'. destruct (assocN s (d_trans (c_main c))) as [row |] eqn:Er; [| discriminate].
+  apply assocN_in in Er. apply assocN_in in Hs. apply assocN_in in Hs'.
+  unfold subs_local in H. rewrite forallb_forall in H. specialize (H _ Er). cbn [snd] in H.
+  rewrite forallb_forall in H. specialize (H _ Hs). rewrite forallb_forall in H. specialize (H _ Hs'). cbn [fst] in H.
+  rewrite Hi, Hj in H. rewrite N.eqb_refl in H. cbn in H. apply N.eqb_eq in H. subst k'.
+  pose proof (nthN_inj (c_main c) ND i j _ Hi Hj) as E. subst j.
+  rewrite Hs0 in Hs0'. inversion Hs0'. reflexivity.
+Qed.
